@@ -11,6 +11,7 @@ import (
 	"go/parser"
 	"go/token"
 	"os"
+	"strings"
 	"testing"
 	"time"
 
@@ -38,7 +39,8 @@ var gvcAPIScenarios = []gvcAPIScenario{
 
 func TestGvcReplay(t *testing.T) {
 	var in struct {
-		Property string `json:"property"`
+		Property   string `json:"property"`
+		Obligation string `json:"obligation"`
 	}
 	_ = json.Unmarshal([]byte(os.Getenv("GVC_REPLAY_INPUT")), &in)
 	found := 0
@@ -92,15 +94,15 @@ func TestGvcReplay(t *testing.T) {
 				report(sc, fmt.Sprintf("no change applies but Apply returned (%q, %v) instead of the input bytes", r.out, r.err))
 			}
 		case "C04":
-			if sc.name == "plus-line-before-minus-line-single-elision" && r.err == nil && !bytes.Contains(r.out, []byte("bar(1, 2)")) {
+			if strings.Contains(in.Obligation, "error-dropped") && sc.name == "plus-line-before-minus-line-single-elision" && r.err == nil && !bytes.Contains(r.out, []byte("bar(1, 2)")) {
 				report(sc, fmt.Sprintf("the only elision on each side did not reproduce the elided arguments: Apply returned %q without error", r.out))
 			}
 		case "C04x":
 		}
-		if in.Property == "C04" && sc.name == "elision-needs-backtracking" && r.err == nil && !bytes.Contains(r.out, []byte("bar(1, 2, 1)")) {
+		if in.Property == "C04" && strings.Contains(in.Obligation, "some-choice-of-runs") && sc.name == "elision-needs-backtracking" && r.err == nil && !bytes.Contains(r.out, []byte("bar(1, 2, 1)")) {
 			report(sc, fmt.Sprintf("some choice of runs makes the pattern match (`...` = `1, 2`) but the call was not rewritten: Apply returned %q", r.out))
 		}
-		if in.Property == "C10" && sc.name == "same-path-imported-twice" && r.err == nil && !bytes.Contains(r.out, []byte("y.Bar()")) {
+		if in.Property == "C10" && strings.Contains(in.Obligation, "any-unnamed-import") && sc.name == "same-path-imported-twice" && r.err == nil && !bytes.Contains(r.out, []byte("y.Bar()")) {
 			report(sc, fmt.Sprintf("the file imports the path in the stated (unnamed) form but the change was not applied: Apply returned %q", r.out))
 		}
 		switch in.Property {
